@@ -3,12 +3,7 @@ does not decide, and the technique.  tools/gen_manifest.py turns this into MANIF
 
 CLAIMED = {}
 
-NOT_APPLICABLE = {
-    'C15': 'LIST/MAP record assembly is a data-dependent loop with state carried across pages '
-           '(prev_i, started, have_null, vali) and schema-instance matching; no table, ordering, '
-           'ownership or finite-order clause is a necessary condition without freezing the loop '
-           'text, and static analysis cannot bound the runtime level arrays (DESIGN.md 5/C15, 7).',
-}
+NOT_APPLICABLE = {}
 
 
 def claim(pid, technique, decides, not_decided, note, design_ref):
@@ -235,3 +230,18 @@ claim('C12',
       'absence of undefined behaviour in the compiled artefact; raw loads on malformed input',
       'The property\'s own observation point (a sanitised execution) is another technique family; this decides the source-level discipline only.',
       'DESIGN.md 5/C12')
+
+claim('C15',
+      'def-use threading of the assembly cursor across pages, argument-position agreement with the assembly loop\'s signature, specification shape of the LIST/MAP predicates, branch-condition table of the assembly loop read from the Cython source',
+      'the structural part of record assembly: the v1 page loop hands the loop the row cursor it returned for the previous '
+      'page (a row may continue across a page boundary) and binds that cursor once; v2 pages assemble into the cursor '
+      'window and advance it by the page\'s row count; nullability and maximum definition level come from the right '
+      'schema levels, in the positions the loop declares; _is_list_like / _is_map_like test exactly the LIST / MAP shape of '
+      'the specification; the loop takes its five decisions (new row, value, null element, null row, continuation of the '
+      'previous page\'s row) on the conditions the algorithm prescribes - the last one does not (known finding K15a); map '
+      'rows are dict(zip(keys, values)) or None.',
+      'the lists and dicts produced for arbitrary level arrays - the loop is data dependent and only its branch conditions '
+      'are compared with the algorithm; dictionary dereference; deeper nesting',
+      'Claimed for this clause only. The design round declared C15 not applicable; reading the loop for branch conditions '
+      'turned out to be a genuine static handle (it found K15a, reproduced with a specification-built file).',
+      'DESIGN.md 5/C15')
